@@ -206,3 +206,128 @@ class PersistentId(Spec):
 
 SPECS = [PersistentId]
 INLINE = ['ZODB.Connection:Connection.db']
+
+
+# ======================================================================================
+MARKER = VOpaque(z3.Const('WeakRefMarker', Obj), 'wrefmarker')
+prims.EXT_CONSTS['persistent.wref.WeakRefMarker'] = MARKER
+
+
+class PersistentIdWeak(PersistentId):
+    """ObjectWriter.persistent_id for a persistent weak reference: the reference written names the oid of the TARGET -
+    taken from the target when the weak reference has none yet - and is spelled ['w', (oid,)] when the target lives in
+    this connection's database, ['w', (oid, database name)] otherwise; a target that is still NEW gets an oid of this
+    connection, becomes this connection's object AND is queued for storing: the stored weak reference must lead to an
+    object that exists (C14: "every reference ... leads to the object with the same id"; the code says so itself)."""
+    func = MOD + ':ObjectWriter.persistent_id'
+    label = 'weakref'
+    callable_contract = False
+
+    def setup(self, c, case=None):
+        a = PersistentId.setup(self, c, case)
+        g = c.ghost['pi']
+        g['wref'] = c.fresh_opaque('wref')
+        g['target'] = g['x']
+        g['w_attrs'] = {}
+        return {'self': a['self'], 'obj': g['wref']}
+
+    def hooks(self, c):
+        hk = PersistentId.hooks(self, c)
+        g = lambda cc: cc.ghost['pi']
+        base_attr, base_isinst, base_set = hk['opaque_attr'], hk['opaque_isinstance'], hk.get('opaque_setattr')
+        base_hasattr = hk['prim:builtins.hasattr']
+
+        def isinst(cc, v, clsname):
+            if v.tag == 'wref':
+                return clsname.endswith('WeakRef')
+            if v.tag == 'wrefmarker':
+                return False
+            return base_isinst(cc, v, clsname)
+
+        def oattr(cc, v, name, node):
+            if v.tag == 'wref':
+                if name == '_p_oid':
+                    return MARKER
+                a = g(cc)['w_attrs']
+                if name in a:
+                    return a[name]
+                if name == 'oid':
+                    # a weak reference made in this process has no oid until it is pickled for the first time
+                    if cc.choose([True, True], 'weakref-has-an-oid') == 0:
+                        a['oid'] = NONE
+                    else:
+                        a['oid'] = cc.fresh_bytes(8, 'wref_oid')
+                        a['dm'] = [world(cc).self, cc.fresh_opaque('otherjar')][cc.choose([True, True], 'wref-dm')]
+                        a['database_name'] = cc.fresh_opaque('wref_database_name')
+                        g(cc)['loaded_wref'] = True
+                    return a['oid']
+                raise Unsupported('weakref attribute %s before it is set' % name, node)
+            return base_attr(cc, v, name, node)
+
+        def osetattr(cc, v, name, val, node):
+            if v.tag == 'wref':
+                g(cc)['w_attrs'][name] = val
+                return True
+            return base_set(cc, v, name, val, node) if base_set else None
+
+        def ocall(cc, v, args, kwargs, node):
+            if v.tag == 'wref':
+                return g(cc)['target']
+            return None
+
+        def hasattr_(cc, interp, args, kwargs, node):
+            if isinstance(args[0], VOpaque) and args[0].tag == 'wrefmarker':
+                return VBool(False)
+            return base_hasattr(cc, interp, args, kwargs, node)
+        hk.update({'opaque_isinstance': isinst, 'opaque_attr': oattr, 'opaque_setattr': osetattr,
+                   'opaque_call': ocall, 'prim:builtins.hasattr': hasattr_})
+        return hk
+
+    def outcomes(self, c, E):
+        w = world(c)
+        g = c.ghost['pi']
+        u0 = dict(U(c, w))
+        x = g['target'].t
+        jar0, oid0 = sel(u0['jar'], x), sel(u0['oid'], x)
+
+        def post(cc, E, r):
+            from pyvc.ground import All
+            u1 = U(cc, w)
+            a = g['w_attrs']
+            items = cc.obj(g['stack']).meta.get('items', [])
+            ok = isinstance(r, VRef) and cc.obj(r).kind == 'list' and len(cc.obj(r).meta.get('items', [])) == 2
+            out = [('returns-a-weak-reference-spelling', ok)]
+            if not ok:
+                return out
+            tag, body = cc.obj(r).meta['items']
+            b = body.items if isinstance(body, VTuple) else []
+            out.append(('tagged-w', isinstance(tag, VStr) and tag.s == 'w' and len(b) in (1, 2)))
+            if not b or not isinstance(b[0], VBytes):
+                return out + [('names-an-oid', False)]
+            named = bytes_num(cc, b[0])
+            if g.get('loaded_wref'):
+                # a weak reference that already knows its target: written as it is, nothing else happens
+                out += [('known-target.names-the-oid-the-reference-holds', named == bytes_num(cc, a['oid'])),
+                        ('known-target.nothing-queued-nothing-touched', z3.And(z3.BoolVal(not items), *[
+                            u1[k] == u0[k] for k in ('oid', 'jar', 'serial', 'changed')]))]
+            else:
+                queued = len(items) == 1 and isinstance(items[0], VOpaque) and items[0].t.eq(x)
+                out += [('names-the-oid-of-the-target', named == sel(u1['oid'], x)),
+                        ('new-target.gets-an-oid-of-this-connection-AND-is-queued-for-storing', z3.Implies(
+                            oid0 < 0, z3.And(z3.BoolVal(queued), sel(u1['jar'], x) == 1, sel(u1['oid'], x) >= 0))),
+                        ('stored-target.untouched-and-nothing-queued', z3.Implies(oid0 >= 0, z3.And(
+                            z3.BoolVal(not items), sel(u1['oid'], x) == oid0, sel(u1['jar'], x) == jar0))),
+                        ('every-other-object-untouched', All(['obj'], lambda y: z3.Implies(y != x, z3.And(
+                            *[sel(u1[k], y) == sel(u0[k], y) for k in ('oid', 'jar', 'serial', 'changed')])))),
+                        ('the-reference-remembers-oid-and-data-manager-of-the-target',
+                         isinstance(a.get('oid'), VBytes) and 'dm' in a and 'database_name' in a)]
+            dm = a.get('dm')
+            here = isinstance(dm, VRef) and dm.id == w.self.id
+            out.append(('database-name-written-exactly-when-the-target-lives-elsewhere',
+                        (len(b) == 1) if here else (len(b) == 2 and b[1] is a.get('database_name'))))
+            return out
+        return [Outcome('reference', post=post, result=lambda cc, E: cc.fresh_opaque('reference')),
+                Outcome('target-without-connection', 'raise', 'builtins:AttributeError')]
+
+
+VARIANTS = [PersistentIdWeak]
